@@ -81,6 +81,7 @@ class Engine:
         self.n_aborted = 0
         self.timed_out_branches = 0
         self.max_depth = 0
+        self.judging = False
 
     # -- values -----------------------------------------------------------
     def fresh_real(self, name):
@@ -184,6 +185,8 @@ class Engine:
             return True
         if z3.is_false(cond):
             return False
+        if self.judging:
+            raise EngineError("an oracle tried to fork on a symbolic condition: " + str(cond)[:200])
         self.n_branches += 1
         pos = len(self.trace)
         if pos < len(self.prefix):
